@@ -39,7 +39,7 @@ def is_arr(p): c = cls(p); return c['K'] == 3
 def is_obj(p): c = cls(p); return c['K'] == 2
 def holes(p): c = cls(p); return c['K'] == 2 and 20 in [c['E%d' % (i + 1)] for i in range(c['N'])]
 B = {'Dispose': 6, 'Copy': 100, 'SetToZero': 40, 'vf_mem.*': 100, 'Count': 4, 'IsEqual': 6, 'Hash': 4, 'Initialize': 6, 'find': 4, 'generateHash': 6,
-     'resize|copyTable|ActualSize|operator\\+=': 6, 'h_step|mk.*|m_.*|mo_.*|obs_.*|scalar_arg|mutate|slot_fill|add_obj_member': 9,
+     'resize|copyTable|ActualSize|operator\\+=': 6, 'mk.*|m_.*|mo_.*|obs_.*|scalar_arg|mutate|slot_fill|add_obj_member': 9, 'h_step|slot_scrub': 25,
      'stringToNumber|parseExponent': 7, 'BigInt|Add|Multiply|ShiftRight|ShiftLeft|Clear|powerOf.*': 8}
 STN = '_ZN6Qentem5Digit14stringToNumberIcEENS_11QNumberTypeERNS_9QNumber64EPKT_Rjj'
 def Q(pre, op, src=None, kf_only=None, stub=True, **kw):
@@ -134,8 +134,7 @@ def queries(tier):
     qs.append(Q('S1', 'AS_TYPE', SEL=10, kf_only=KF_TYPE))
     qs.append(Q('UI', 'AS_TYPE', SEL=3, kf_only=KF_TYPE))
     qs.append(Q('UI', 'SET_PTR', src='UI', SEL=1, kf_only=KF_NULLP))
-    qs.append(Q('P_UI', 'SET_PTR', src='UI', SEL=1, kf_only=KF_NULLP))
+    if not q: qs.append(Q('P_UI', 'SET_PTR', src='UI', SEL=1, kf_only=KF_NULLP))   # a ValuePtr left with a null target: every observer dereferences it
     qs.append(Q('O_a.UI_b.S', 'REMOVE_KEY', KA=2, W=1, kf_only=KF_RMKEY))      # "b" read with length 2: not found, nothing removed
     qs.append(Q('O_a.UI', 'REMOVE_KEY', KA=3, W=1, kf_only=KF_RMKEY))          # "ab" read with length 1: removes "a"
-    qs.append(Q('O_a.UI_b.S', 'REMOVE_KEY', KA=0, W=1, kf_only=KF_RMKEY))      # "" read with length 2: one unit past the key's storage
     return qs
